@@ -2,6 +2,7 @@
 from __future__ import annotations
 
 from harness import matryoshka as M
+from harness import poolapi
 
 ID = "C04"
 PROPS = "props/C04.v"
@@ -148,11 +149,11 @@ class C04Stream(M.MatStream):
 
 
 def streams():
-    return [C04Stream()]
+    return [C04Stream(), poolapi.PoolApiStream()]
 
 
 META = {
     "technique": "Coq proof (simulation between the code's running bounds and the ideal interval intersection under conflict-freeness; clamp = unique argmin by exhaustive case analysis + lia; reported bounds by the same simulation) + T-tie translation of _bounds.py + differential correspondence of Matryoshka/get_status/adjust_to_bounds vs model in Coq",
-    "level_text": "Machine-checked theorems (closed under the global context): for every conflict-free sorted proposal list the target is the unique closest admissible value to the lowest-priority preference inside the ideal intersection minus the exclusion zone; the reported bounds equal that intersection outside the zone; target = pick(adjust_to_bounds(report, pref)) when priorities above are strictly higher; empty proposals are no-ops. The equal-priority gap (F8) is proved as a `_refuted` theorem and listed as a known finding. Model tied to the code by translation (_bounds.py) and correspondence (thousands of histories incl. get_status and adjust_to_bounds for every priority).",
+    "level_text": "Machine-checked theorems (closed under the global context): for every conflict-free sorted proposal list the target is the unique closest admissible value to the lowest-priority preference inside the ideal intersection minus the exclusion zone; the reported bounds equal that intersection outside the zone; target = pick(adjust_to_bounds(report, pref)) when priorities above are strictly higher; empty proposals are no-ops. The equal-priority gap (F8) is proved as a `_refuted` theorem and listed as a known finding. Model tied to the code by translation (_bounds.py) and correspondence (thousands of histories incl. get_status and adjust_to_bounds for every priority; stream `pool_api`: real BatteryPool instances of several priorities, regular and operating-point, calling propose_power / propose_charge / propose_discharge / power_status against the real PowerManagingActor, every Request and every pool report compared with the PowerManager model in Coq).",
     "level_note": "Trusted: Coq kernel + vm_compute, tools/translate.py, harness generators, integer-valued watts. Interpretation of 'admissible' stated in props/C04.v (exactly-zero preference honoured as zero when the zone lies inside the bounds). Known finding F8 (same-priority sibling bounds missing from the report) is attributed only when the failing actor has a same-priority sibling with bounds sorted above it.",
 }
